@@ -11,7 +11,7 @@ SPEC = {
                                     "C11_is_equal_symmetric_refuted", "C11_perm_invariant_unconditional_refuted",
                                     "C11_is_equal_reads_position", "C11_position_regression",
                                     "C11_protocol_delivers_exactly_once", "C11_protocol_no_deadlock",
-                                    "C11_protocol_terminates", "C11_protocol_matches_source", "C11_runs_agree", "C11_H2_from_job_invariants",
+                                    "C11_protocol_terminates", "C11_protocol_preserves_job_order", "C11_protocol_matches_source", "C11_runs_agree", "C11_runs_agree_exit", "C11_H2_from_job_invariants",
                                     "C11_nonvacuous"]},
     "harness_args": lambda tier: ["C11", "--n", 240, "--perms", 12, "--scen", 26, "--bin", 5] if tier == "quick"
                                  else ["C11", "--n", 1800, "--perms", 30, "--scen", 160, "--bin", 40, "--race", 1],
@@ -50,8 +50,8 @@ SPEC = {
 MANIFEST = {
     "text": "Theorems (Coq, no axioms): the channel protocol of checkRules/scanWorker (producer -> jobs channel -> n workers -> results "
             "channel -> main loop, WaitGroup closing results) is a transition system whose every path, for every job list, n >= 1 workers and "
-            "capacity >= 1, delivers every report of every job to Summary.Report exactly once (the arrival stream is a permutation of the "
-            "per-job lists), cannot get stuck and is finite; its concurrency skeleton is re-extracted from scan.go's AST on every run and "
+            "capacity >= 1, delivers every report of every job to Summary.Report exactly once (the arrival stream is a permutation, indeed an order-preserving "
+            "interleaving, of the per-job lists), cannot get stuck and is finite; its concurrency skeleton is re-extracted from scan.go's AST on every run and "
             "compared (cancellation via ctx.Done() is outside the model); hence any two complete runs with any worker counts/schedules give "
             "the same processed summary, JSON and console output under H1 and H2 (C11_runs_agree). For every report stream s and every permutation s' of it (a superset of all worker interleavings), "
             "under H1 (isEqual symmetric on the stream's elements and implying equality of every rendered field) and H2 (the 8-component "
